@@ -225,6 +225,9 @@ def run(ck, tier):
         ck.sample({'framer': kind, 'paths': len(fps), 'absence-paths': sum(1 for fp in fps if fp.absences),
                    'delivery-paths': sum(1 for fp in fps if fp.deliveries)})
     ck.floor('R2', nabs, 8, 'data-absence paths over four framers')
+    ck.rule('R8', 'several frames in one read: the garbage skip cuts at the first start delimiter (shared with C11 R3)')
+    from ..share import import_findings
+    import_findings(ck, 'C11', 'R8', ('R3',), 'a read that holds more than one frame delivers only the last one', detail_prefixes=('skip-not-to-first-delimiter',))
     ck.floor('R1', npaths, 100, 'processIncomingPacket paths')
     ck.floor('R6', ncache, 3, 'buffer-dropping paths of framers with a cached header')
     ck.assume('only explicit tests (len(buffer) comparisons, find() == -1) count as data-absence; short reads that are caught and turned into False are unclassified')
